@@ -211,6 +211,27 @@ func (s *stack) warmUp() error {
 
 var topNamespaces = namespaces.NewNamespaces(pipservices.NamasepacesParams{Task: "", Lock: ""})
 
+// lockMapFor gives every top-level task a small lock map over a three-name pool, derived from
+// its name: wait lists and resource locks are used together (the runner must wait first and
+// lock afterwards, or a dependant that holds a resource its prerequisite needs never ends).
+func lockMapFor(name string) commservices.LockMap {
+	h := uint32(2166136261)
+	for i := 0; i < len(name); i++ {
+		h = (h ^ uint32(name[i])) * 16777619
+	}
+	m := commservices.LockMap{}
+	pool := []string{"res-x", "res-a", "res-b"}
+	for i, r := range pool {
+		switch (h >> (uint(i) * 3)) % 4 {
+		case 0:
+			m[r] = commservices.LockRW
+		case 1:
+			m[r] = commservices.LockR
+		}
+	}
+	return m
+}
+
 func (s *stack) pip(scp app.Scope, name string, wait []string, body string) pipservices.Pip {
 	return pipservices.Pip{
 		Context: pipservices.PipContext{
@@ -223,7 +244,7 @@ func (s *stack) pip(scp app.Scope, name string, wait []string, body string) pips
 		Name:       name,
 		Namespaces: topNamespaces,
 		Sandbox:    "self",
-		Lock:       commservices.LockMap{},
+		Lock:       lockMapFor(name),
 		Wait:       wait,
 	}
 }
